@@ -2,8 +2,8 @@ from props import S
 
 CFG = {
     "properties_file": "Properties/C09.v",
-    "corr_files": ["Corr/C09.v"],
-    "streams": [S("C09", "drive_auth", 600, 20000)],
+    "corr_files": ["Corr/C09.v", "Corr/C09conn.v"],
+    "streams": [S("C09", "drive_auth", 600, 20000), S("C09conn", "drive_auth", 150, 4000)],
     "rule": "one allow-list per case (0-6 entries: single IPv4/IPv6/v4-mapped addresses, IPv4 CIDRs of every length 0-32, IPv6 CIDRs of every "
             "length 0-128, v4-mapped literals with 128-bit lengths around 96, ::/0-style catch-alls, zoned and malformed entries such as /33, "
             "/024, /-1, empty, text) with Secure on/off, and 8-15 probes per case: client address strings (55% derived from an entry: inside its "
@@ -12,7 +12,14 @@ CFG = {
             "procedure/version/program) x flavours (AUTH_NONE, AUTH_SYS, 2); 6% of the calls are made while a policy update holds policyRWMu (drain). Each probe runs both filters on the strings and HandleCall on a "
             "server configured with the list, recording reply kind, backend calls and handle-table size. Corpus: every IPv4 and IPv6 prefix "
             "length with an inside and an outside client, v4-mapped CIDRs at lengths {0,1,64,80,95,96,97,104,120,128}, ::/0 against IPv4 "
-            "clients, empty list, all malformed clients, all malformed entries. Non-trivial = a case with both denied and accepted probes",
+            "clients, empty list, all malformed clients, all malformed entries. Non-trivial = a case with both denied and accepted probes. "
+            "Stream C09conn: a real listening server (absnfs.New over specfs, NewServer+Listen on 127.0.0.1:0, record marking) with one or "
+            "two long-lived TCP client connections (35% bound to a privileged local port) and ephemeral ones; 2-5 policy updates per case "
+            "(UpdatePolicyOptions / UpdateExportOptions alternating; AllowedIPs empty, 15 lists containing 127.0.0.1 in every spelling, 16 "
+            "lists not containing it incl. ::/0, malformed entries, random lists; Secure 25%) interleaved with NULL/GETATTR/LOOKUP/ACCESS/"
+            "MKDIR/MNT calls on connections opened before and after each update; per call: accepted / denied (reject_stat, auth_stat) / "
+            "closed, backend calls, MKDIR effect; judged by the policy in force when the call is sent. Non-trivial there = a call on an "
+            "established connection after an update",
     "assumptions": ["net.ParseIP / net.ParseCIDR syntax (Go standard library) is trusted; the driver parses every string with net/netip and hands "
                     "the parsed forms to Coq, so a disagreement between the two parsers shows up as a mismatch",
                     "parsed addresses are 16-byte values (< 2^128); an IPv4 literal's 16-byte form is v4-mapped"],
